@@ -11,6 +11,13 @@ import json, os, shutil, subprocess, sys, time, glob
 ENV = dict(os.environ, GOFLAGS="-mod=mod", GOPROXY="off", GOSUMDB="off", GOTOOLCHAIN="local")
 SEEDED = "/verif/seeded"
 
+def _clean_logs(out):
+    """remove the per-run work directory a failing check leaves behind (sensitivity runs only)"""
+    import re as _re, shutil as _sh
+    for m in _re.finditer(r"^logs: (/verif/\.build/run-[^\s]+)$", out or "", _re.M):
+        _sh.rmtree(m.group(1), ignore_errors=True)
+
+
 def sh(cmd, cwd=None, env=None, timeout=7200):
     r = subprocess.run(cmd, cwd=cwd, env=env or ENV, stdout=subprocess.PIPE, stderr=subprocess.STDOUT, text=True, errors="replace", timeout=timeout)
     return r.returncode, r.stdout
@@ -105,6 +112,7 @@ def run_one(sid, tier, props=None):
         for prop in plist:
             t0 = time.time()
             rc, out = sh(["/verif/check", prop, tier], cwd="/verif", env=dict(ENV, VERIF_REPO=repo))
+            _clean_logs(out)
             caught = rc == 1 and ("VIOLATION property=%s" % prop) in out
             line = [l for l in out.splitlines() if l.startswith("  ")][:1]
             res[prop] = ("CAUGHT" if caught else "MISSED(rc=%d)" % rc) + " %.0fs %s" % (time.time() - t0, (line[0][:160] if line else ""))
